@@ -82,7 +82,7 @@ def _expected(chains, cyclic):
     return nterm, cterm
 
 
-def h_termini(eng, layout, first=None, na=3):
+def h_termini(eng, layout, first=None, na=3, strict=False):
     from pdb2pqr import aa
     from pdb2pqr import biomolecule as biomol
 
@@ -149,7 +149,9 @@ def h_termini(eng, layout, first=None, na=3):
         try:
             bm.set_termini(neutraln=neutraln, neutralc=neutralc)
         except (IndexError, KeyError, ValueError) as e:
-            eng.check(True, "loud-failure-tolerated", note=f"{type(e).__name__}: {str(e)[:60]}")
+            desc = " / ".join(f"{cid or '_'}:" + ",".join(k + ("*" if o else "") for k, o in rs) for cid, rs in chains)
+            # C02 speaks about successful runs only; C12 (strict) requires well-formed structures to be processed
+            eng.check(not strict, "well-formed-structure-processed" if strict else "loud-failure-tolerated", note=f"{desc}: set_termini raised {type(e).__name__}: {str(e)[:80]}")
             return
     # the path condition fixes every closure comparison the code made; the oracle is evaluated under it
     got_n = {k for k, r in res_by_key.items() if getattr(r, "is_n_term", 0)}
